@@ -115,6 +115,7 @@ func (this *Dataset) SizeInfo(ctx context.Context) (uint64, uint64, error) {
 			atomic.AddUint64(&resultBytesSize, partition.bytesSize())
 			errorCh <- nil
 		} else {
+			partition := partition // each worker looks up the partition it was started for
 			wg.Add(1)
 			go func(ctx context.Context, wg *sync.WaitGroup, errorCh chan error, len *uint64, bytesSize *uint64) {
 				defer wg.Done()
